@@ -126,9 +126,16 @@ class Tracker:
         self.nviol += 1
         if o is not None:
             self.tainted.add(id(o))
-        # events that only the snapshot restore emits belong to a rollback even when that
-        # rollback is the internal one of a failed flush
-        op = "rollback" if kw.get("event") in ("deleted_to_persistent", "persistent_to_transient") else self.op
+        # the operation class is part of the mechanism, but events that only a snapshot
+        # restore / release or an expunge emit are attributed to that, whatever public
+        # operation (a failed autoflush inside add / merge / refresh ...) triggered it
+        ev = kw.get("event")
+        op = self.op
+        if ev in ("deleted_to_persistent", "persistent_to_transient"):
+            op = "rollback"
+        elif ev in ("pending_to_transient", "deleted_to_detached", "persistent_to_detached") and op not in (
+                "expunge", "expunge_all", "close", "commit"):
+            op = "rollback"
         mech = f"{mech}:in-{op}"
         w = dict(self.desc)
         w["ops"] = list(self.desc["ops"])
@@ -296,7 +303,22 @@ def apply_op(w, op, expected_exc):
     tr.op = {"nested_rollback": "rollback", "delete_flush": "delete", "s2_add": "add", "s2_expunge": "expunge",
              "s2_close": "close"}.get(name, name)
     try:
+        if name in ("add", "delete", "delete_flush", "s2_add") and o is not None:
+            st_o = w.inspect(o)
+            if st_o.detached and any(x is not o and w.inspect(x).key == st_o.key for x in tr.objs.values()):
+                # a detached twin: the history made the library build / load a second
+                # instance for the same row (merge, delete cascade).  Attaching the detached
+                # one as well is an application error the session cannot see (a later
+                # rollback restores the other one over it); not generated
+                w.desc["ops"].pop()
+                return
         if name == "add":
+            st_o = w.inspect(o)
+            if w.desc["cascade"] == "orphan" and type(o) is w.C and o.__dict__.get("parent") is None and not st_o.persistent:
+                # explicitly adding an orphan under delete-orphan: refused / deleted at flush
+                # by the orphan rules, not a lifecycle path of its own
+                w.desc["ops"].pop()
+                return
             s.add(o)
         elif name in ("delete", "delete_flush"):
             if id(o) in tr.was_deleted:
@@ -343,8 +365,13 @@ def apply_op(w, op, expected_exc):
             s.commit()
             w.nested.clear()
         elif name == "rollback":
-            s.rollback()
             w.nested.clear()
+            try:
+                s.rollback()
+            except expected_exc as e2:
+                tr.viol("rollback-raises:" + type(e2).__name__,
+                        f"Session.rollback() raised {type(e2).__name__}: {str(e2)[:100]}")
+                s.rollback()
         elif name == "close":
             s.close()
             w.nested.clear()
@@ -380,8 +407,12 @@ def apply_op(w, op, expected_exc):
             tr.chain.clear()
             tr.op = "rollback"
             w.desc["ops"].append(["rollback-after-error", None])
-            s.rollback()
             w.nested.clear()
+            try:
+                s.rollback()
+            except expected_exc as e2:
+                tr.viol("rollback-raises:" + type(e2).__name__,
+                        f"Session.rollback() raised {type(e2).__name__}: {str(e2)[:100]}")
     else:
         # documented end states of the operations that finish a unit of work (only when the
         # operation did not raise): commit -> nothing pending or deleted is left in the
